@@ -44,9 +44,12 @@ func genC16(seed uint64, idx int, tier string) interface{} {
 	v := VocabOf(rc, fresh)
 	var in []byte
 	ir := r.Fork(2)
-	if r.Bool(0.03) {
+	switch {
+	case r.Bool(0.03):
 		in = GenLongInput(ir, v)
-	} else {
+	case tier == "thorough" && r.Bool(0.3):
+		in = GenInput(ir, v, 16)
+	default:
 		in = GenInput(ir, v, 6)
 	}
 	rp := genChunks(r.Fork(3), len(in))
